@@ -272,3 +272,20 @@ Example ex_C07_merge :
     merged_px sumZ [a; b] 1 = Ok [((0,1),5); ((1,1),2); ((1,2),10); ((2,2),1); ((3,3),4)] /\
     merged_px sumZ [b; a] 6 = merged_px sumZ [a; b] 1.
 Proof. vm_compute. repeat split; reflexivity. Qed.
+
+(** ---- what a user reads from the merge result (composition with C02 and C03): for symmetric-upper inputs over one bin
+    table, the dense range query on the merged cooler — every window, every read chunk size, every merge buffer — is the
+    element-wise sum of the inputs' symmetric matrices. *)
+From Cooler Require Import Model.Query Proofs.QueryProofs Proofs.MergeQuery.
+Theorem C07_merge_then_dense_query : forall nc chroms (inputs : list Index.cooler) buf cs i0 i1 j0 j1,
+  inputs <> [] -> 1 <= zlen chroms -> 0 <= nc -> 0 <= buf -> 1 <= cs ->
+  Forall IndexProofs.ValidCSR inputs -> Forall (HistoryProofs.SameAxes nc chroms true) inputs ->
+  0 <= i0 -> i0 <= i1 -> i1 <= zlen chroms -> 0 <= j0 -> j0 <= j1 -> j1 <= zlen chroms ->
+  exists c out,
+    Index.create_model nc chroms (aggregate (concat (map Index.pixels_of inputs))) true = Some c /\
+    fill_lower_query (epx_of (Index.pixels_of c)) (Index.bin1_offset c) (get_spans (Index.bin1_offset c) cs) (i0, i1, j0, j1) = Some out /\
+    dense_of out (i0, i1, j0, j1) =
+    map (fun i => map (fun j => sumZ (map (fun ci => symm (Index.pixels_of ci) i j) inputs)) (zrange j0 (Z.to_nat (j1 - j0))))
+        (zrange i0 (Z.to_nat (i1 - i0))).
+Proof. exact merge_then_dense_query. Qed.
+Print Assumptions C07_merge_then_dense_query.
